@@ -230,6 +230,71 @@ Definition delivered (ops : list sop) : list event :=
   map (fun o : sop => let '(op, slices, _) := o in
          if op =? 9 then EvPing (concat slices) else if op =? 10 then EvPong (concat slices) else EvMsg op (concat slices)) ops.
 
+(* one send through a buffered API, seen by the matching peer: delivered once and intact, reassembly state idle again,
+   the peer's window equal to the sender's new window (which still is a history suffix) *)
+Definition event_of (op : N) (payload : list N) : event :=
+  if op =? 9 then EvPing payload else if op =? 10 then EvPong payload else EvMsg op payload.
+
+Lemma direct_step c rc :
+  r_server rc = negb (w_server c) -> r_pmd rc = w_pmd c -> limit_ok rc ->
+  forall op slices key hist st fr w1 rest,
+  msg_ok rc (op, slices, key) -> win_inv (r_dps _ st) hist -> cf_init _ st = false ->
+  send_one c (r_dps _ st) op slices key = (Some fr, w1, WOk) ->
+  exists st1, read_message rc st (fr ++ rest) = SCont _ [event_of op (concat slices)] st1 rest
+              /\ cf_init _ st1 = false /\ r_dps _ st1 = w1 /\ (exists h1, win_inv w1 h1) /\ (2 <= length fr)%nat.
+Proof.
+  intros Hrole Hpmd Hc op slices key hist st fr w1 bs' Hhd Hinv Hinit E.
+  cbn in Hhd. destruct Hhd as (Hk & Hkw & Hp & Hlim & Hkind).
+  assert (Hop16 : op < 16) by (destruct Hkind as [([-> | ->] & _) | ([-> | ->] & _)]; lia).
+  assert (Hn : (Z.of_nat (length (concat slices)) < 2 ^ 63)%Z) by (destruct Hc as (_ & Hc1); lia).
+  destruct (send_one_shape c _ op slices key fr w1 Hop16 Hk Hkw Hp Hn E) as (rsv1 & payload & -> & _ & Hpw & H0 & H1).
+  assert (Hmsg : exists st1, read_message rc st (encode_frame LShortest (out_frame (w_server c) true rsv1 op key payload) ++ bs')
+                             = SCont _ [event_of op (concat slices)] st1 bs'
+                             /\ cf_init _ st1 = false /\ r_dps _ st1 = w1).
+  { unfold event_of. destruct Hkind as [(Hop & Hwire & Hu) | (Hop & Hsmall)].
+    - (* data message *)
+      replace (op =? 9) with false by (destruct Hop; subst; reflexivity).
+      replace (op =? 10) with false by (destruct Hop; subst; reflexivity).
+      destruct rsv1.
+      + destruct (H1 eq_refl) as (Hcp & _ & -> & ->).
+        set (z := strip_tail (deflate_raw (sw_dict (r_dps window st)) (concat slices))) in *.
+        assert (A1 : wf_bytes z) by (apply strip_tail_wf; apply deflate_wf).
+        assert (A2 : N.of_nat (length z) < 2 ^ 63).
+        { pose proof (strip_tail_len (deflate_raw (sw_dict (r_dps window st)) (concat slices))).
+          specialize (deflate_small (sw_dict (r_dps window st)) (concat slices)). subst z. lia. }
+        assert (A3 : true = true -> r_pmd rc = true) by (intros _; rewrite Hpmd; exact Hcp).
+        assert (A4 : (Z.of_nat (length z) <= r_limit rc)%Z) by apply Hwire.
+        assert (A5 : inflate (sw_dict (r_dps window st)) (z ++ flate_tail9) (r_limit rc) = Some (concat slices)) by (apply H_flate; exact Hlim).
+        destruct (recv_sent_data rc st (w_server c) true op key z (concat slices) bs' Hop Hk Hkw A1 A2 Hc Hinit Hrole A3 A4 A5 Hu)
+          as (st1 & Hr & Hi & Hd).
+        exists st1. split; [exact Hr|]. split; [exact Hi|]. rewrite Hd.
+        symmetry. apply (fold_wwrite_concat slices (r_dps window st) hist). exact Hinv.
+      + destruct (H0 eq_refl) as (-> & ->).
+        assert (A2 : N.of_nat (length (concat slices)) < 2 ^ 63) by lia.
+        assert (A3 : false = true -> r_pmd rc = true) by discriminate.
+        destruct (recv_sent_data rc st (w_server c) false op key (concat slices) (concat slices) bs' Hop Hk Hkw Hp A2 Hc Hinit Hrole A3 Hlim eq_refl Hu)
+          as (st1 & Hr & Hi & Hd).
+        exists st1. auto.
+    - (* ping / pong: never compressed *)
+      destruct rsv1.
+      + destruct (H1 eq_refl) as (_ & Hd & _). exfalso. unfold is_data in Hd. destruct Hop; subst; discriminate.
+      + destruct (H0 eq_refl) as (-> & ->).
+        assert (Hst : st_ok window st) by (unfold st_ok; rewrite Hinit; discriminate).
+        destruct (recv_sent_ctl rc st (w_server c) op key (concat slices) bs' Hop Hk Hkw Hp Hsmall Hc Hst Hrole Hlim) as (st1 & Hr & Habs & _).
+        exists st1. split; [rewrite Hr; destruct Hop as [-> | ->]; reflexivity|].
+        unfold abs in Habs. rewrite Hinit in Habs. destruct (cf_init window st1) eqn:E1; [discriminate|].
+        injection Habs as Hd. auto. }
+  destruct Hmsg as (st1 & Hr & Hi1 & Hd1). exists st1. repeat split; auto.
+  - destruct rsv1.
+    + destruct (H1 eq_refl) as (_ & _ & _ & ->). eexists. exact (proj1 (fold_wwrite_inv slices _ hist Hinv)).
+    + destruct (H0 eq_refl) as (_ & ->). exists hist. exact Hinv.
+  - apply enc_len.
+Qed.
+
+Lemma delivered_event_of ops :
+  delivered ops = map (fun o : sop => let '(op, slices, _) := o in event_of op (concat slices)) ops.
+Proof. reflexivity. Qed.
+
 Theorem fidelity c rc :
   r_server rc = negb (w_server c) -> r_pmd rc = w_pmd c -> limit_ok rc ->
   forall ops ws hist st bs w fuel,
@@ -244,58 +309,155 @@ Proof.
     cbn [EndToEnd.send_all delivered map] in *.
   - injection H as <- <-. destruct fuel as [|fuel]; [cbn in Hf; lia|]. cbn.
     exists st. repeat split; auto.
-  - inversion Hall as [|? ? Hhd Hall']; subst. cbn in Hhd. destruct Hhd as (Hk & Hkw & Hp & Hlim & Hkind).
+  - inversion Hall as [|? ? Hhd Hall']; subst.
     destruct (send_one c (r_dps window st) op slices key) as [[[fr|] w1] res] eqn:E; try discriminate.
     destruct res; try discriminate.
     destruct (send_all c w1 r) as [[bs' w2]|] eqn:E2; [|discriminate]. injection H as <- <-.
-    assert (Hop16 : op < 16) by (destruct Hkind as [([-> | ->] & _) | ([-> | ->] & _)]; lia).
-    assert (Hn : (Z.of_nat (length (concat slices)) < 2 ^ 63)%Z) by (destruct Hc as (_ & Hc1); lia).
-    destruct (send_one_shape c _ op slices key fr w1 Hop16 Hk Hkw Hp Hn E) as (rsv1 & payload & -> & _ & Hpw & H0 & H1).
-    destruct fuel as [|fuel]; [lia|]. cbn [Reader.read_stream].
-    assert (Hmsg : exists st1, read_message rc st (encode_frame LShortest (out_frame (w_server c) true rsv1 op key payload) ++ bs')
-                               = SCont _ [if op =? 9 then EvPing (concat slices) else if op =? 10 then EvPong (concat slices) else EvMsg op (concat slices)] st1 bs'
-                               /\ cf_init _ st1 = false /\ r_dps _ st1 = w1).
-    { destruct Hkind as [(Hop & Hwire & Hu) | (Hop & Hsmall)].
-      - (* data message *)
-        replace (op =? 9) with false by (destruct Hop; subst; reflexivity).
-        replace (op =? 10) with false by (destruct Hop; subst; reflexivity).
-        destruct rsv1.
-        + destruct (H1 eq_refl) as (Hcp & _ & -> & ->).
-          set (z := strip_tail (deflate_raw (sw_dict (r_dps window st)) (concat slices))) in *.
-          assert (A1 : wf_bytes z) by (apply strip_tail_wf; apply deflate_wf).
-          assert (A2 : N.of_nat (length z) < 2 ^ 63).
-          { pose proof (strip_tail_len (deflate_raw (sw_dict (r_dps window st)) (concat slices))).
-            specialize (deflate_small (sw_dict (r_dps window st)) (concat slices)). subst z. lia. }
-          assert (A3 : true = true -> r_pmd rc = true) by (intros _; rewrite Hpmd; exact Hcp).
-          assert (A4 : (Z.of_nat (length z) <= r_limit rc)%Z) by apply Hwire.
-          assert (A5 : inflate (sw_dict (r_dps window st)) (z ++ flate_tail9) (r_limit rc) = Some (concat slices)) by (apply H_flate; exact Hlim).
-          destruct (recv_sent_data rc st (w_server c) true op key z (concat slices) bs' Hop Hk Hkw A1 A2 Hc Hinit Hrole A3 A4 A5 Hu)
-            as (st1 & Hr & Hi & Hd).
-          exists st1. split; [exact Hr|]. split; [exact Hi|]. rewrite Hd.
-          symmetry. apply (fold_wwrite_concat slices (r_dps window st) hist). exact Hinv.
-        + destruct (H0 eq_refl) as (-> & ->).
-          assert (A2 : N.of_nat (length (concat slices)) < 2 ^ 63) by lia.
-          assert (A3 : false = true -> r_pmd rc = true) by discriminate.
-          destruct (recv_sent_data rc st (w_server c) false op key (concat slices) (concat slices) bs' Hop Hk Hkw Hp A2 Hc Hinit Hrole A3 Hlim eq_refl Hu)
-            as (st1 & Hr & Hi & Hd).
-          exists st1. auto.
-      - (* ping / pong: never compressed *)
-        destruct rsv1.
-        + destruct (H1 eq_refl) as (_ & Hd & _). exfalso. unfold is_data in Hd. destruct Hop; subst; discriminate.
-        + destruct (H0 eq_refl) as (-> & ->).
-          assert (Hst : st_ok window st) by (unfold st_ok; rewrite Hinit; discriminate).
-          destruct (recv_sent_ctl rc st (w_server c) op key (concat slices) bs' Hop Hk Hkw Hp Hsmall Hc Hst Hrole Hlim) as (st1 & Hr & Habs & _).
-          exists st1. split; [rewrite Hr; destruct Hop as [-> | ->]; reflexivity|].
-          unfold abs in Habs. rewrite Hinit in Habs. destruct (cf_init window st1) eqn:E1; [discriminate|].
-          injection Habs as Hd. auto. }
-    destruct Hmsg as (st1 & -> & Hi1 & Hd1).
-    assert (Hinv1 : exists h1, win_inv w1 h1).
-    { destruct rsv1.
-      - destruct (H1 eq_refl) as (_ & _ & _ & ->). eexists. exact (proj1 (fold_wwrite_inv slices _ hist Hinv)).
-      - destruct (H0 eq_refl) as (_ & ->). exists hist. exact Hinv. }
-    destruct Hinv1 as (h1 & Hinv1).
-    rewrite app_length in Hf. pose proof (enc_len LShortest (out_frame (w_server c) true rsv1 op key payload)).
+    destruct (direct_step c rc Hrole Hpmd Hc op slices key hist st fr w1 bs' Hhd Hinv Hinit E)
+      as (st1 & Hr & Hi1 & Hd1 & (h1 & Hinv1) & Hlen).
+    destruct fuel as [|fuel]; [cbn in Hf; lia|]. cbn [Reader.read_stream].
+    rewrite Hr. rewrite app_length in Hf.
     destruct (IH w1 h1 st1 bs' w2 fuel Hall' Hinv1 Hd1 Hi1 E2 ltac:(lia)) as (st' & -> & Hd' & Hi').
     exists st'. cbn [app]. auto.
+Qed.
+
+(* ---- Broadcaster: the frame is built once (no dictionary, the generating connection's settings) and the same bytes
+   are written on every subscribed connection of its compression class; the connection's window still takes the
+   payload when the frame is compressed.  The peer inflates it with ITS history as dictionary, which is harmless only
+   because a stream produced without a dictionary holds no reference into one: that fact about DEFLATE is the extra
+   oracle assumption H_flate_nodict. *)
+Hypothesis H_flate_nodict : forall d p lim, (Z.of_nat (length p) <= lim)%Z ->
+  inflate d (strip_tail (deflate_raw [] p) ++ flate_tail9) lim = Some p.
+
+Notation send_bcast := (EndToEnd.send_bcast utf8_valid deflate_raw).
+Notation send_mixed := (EndToEnd.send_mixed utf8_valid deflate_raw).
+
+Lemma bcast_step cg c rc :
+  w_server cg = w_server c -> w_pmd cg = w_pmd c ->
+  r_server rc = negb (w_server c) -> r_pmd rc = w_pmd c -> limit_ok rc ->
+  forall op payload key hist st fr w1 rest,
+  msg_ok rc (op, [payload], key) -> (op = 1 \/ op = 2) -> win_inv (r_dps _ st) hist -> cf_init _ st = false ->
+  send_bcast cg (r_dps _ st) op payload key = (Some fr, w1, WOk) ->
+  exists st1, read_message rc st (fr ++ rest) = SCont _ [EvMsg op payload] st1 rest
+              /\ cf_init _ st1 = false /\ r_dps _ st1 = w1 /\ (exists h1, win_inv w1 h1) /\ (2 <= length fr)%nat.
+Proof.
+  intros Hsrv Hcls Hrole Hpmd Hc op payload key hist st fr w1 rest Hhd Hop Hinv Hinit E.
+  cbn in Hhd. rewrite app_nil_r in Hhd. destruct Hhd as (Hk & Hkw & Hp & Hlim & Hkind).
+  destruct Hkind as [(_ & Hwire & Hu) | (Hbad & _)]; [|exfalso; destruct Hop, Hbad; subst; discriminate].
+  assert (Hop16 : op < 16) by (destruct Hop; subst; lia).
+  assert (Hn : (Z.of_nat (length (concat [payload])) < 2 ^ 63)%Z) by (cbn [concat]; rewrite app_nil_r; destruct Hc as (_ & Hc1); lia).
+  assert (Hp' : wf_bytes (concat [payload])) by (cbn [concat]; rewrite app_nil_r; exact Hp).
+  unfold EndToEnd.send_bcast, broadcast_frame in E.
+  destruct (gen_frame _ _ _ _ _ _ _ _) as [b| | |] eqn:G; try discriminate.
+  unfold broadcast_write in E. injection E as <- <-.
+  destruct (gen_frame_encodes utf8_valid deflate_raw deflate_wf deflate_small _ _ _ _ _ _ _ Hop16 Hk Hkw Hp' Hn G)
+    as (rsv1 & wirep & -> & Hpw & _ & H0 & H1).
+  cbn [fc_fin fc_compress fc_broadcast concat] in *. rewrite app_nil_r in *.
+  rewrite is_compressed_encode by exact Hop16. rewrite Hsrv.
+  destruct rsv1.
+  - destruct (H1 eq_refl) as (Hcp & _ & ->).
+    set (z := strip_tail (deflate_raw [] payload)) in *.
+    assert (A2 : N.of_nat (length z) < 2 ^ 63).
+    { pose proof (strip_tail_len (deflate_raw [] payload)). specialize (deflate_small [] payload). subst z. lia. }
+    assert (A3 : true = true -> r_pmd rc = true) by (intros _; rewrite Hpmd, <- Hcls; exact Hcp).
+    assert (A4 : (Z.of_nat (length z) <= r_limit rc)%Z) by apply Hwire.
+    assert (A5 : inflate (sw_dict (r_dps window st)) (z ++ flate_tail9) (r_limit rc) = Some payload) by (apply H_flate_nodict; exact Hlim).
+    destruct (recv_sent_data rc st (w_server c) true op key z payload rest Hop Hk Hkw Hpw A2 Hc Hinit Hrole A3 A4 A5 Hu)
+      as (st1 & Hr & Hi & Hd).
+    exists st1. repeat split; auto.
+    + eexists. exact (proj1 (wwrite_total_inv _ hist payload Hinv)).
+    + apply enc_len.
+  - rewrite (H0 eq_refl) in *.
+    assert (A2 : N.of_nat (length payload) < 2 ^ 63) by lia.
+    assert (A3 : false = true -> r_pmd rc = true) by discriminate.
+    destruct (recv_sent_data rc st (w_server c) false op key payload payload rest Hop Hk Hkw Hp A2 Hc Hinit Hrole A3 Hlim eq_refl Hu)
+      as (st1 & Hr & Hi & Hd).
+    exists st1. repeat split; auto.
+    + exists hist. exact Hinv.
+    + apply enc_len.
+Qed.
+
+(* C01 over ANY interleaving of direct sends and broadcasts on one connection *)
+Definition send_ok (c : wcfg) (rc : rcfg) (s : send) : Prop :=
+  match s with
+  | SDirect o => msg_ok rc o
+  | SBroadcast cg op payload key =>
+      w_server cg = w_server c /\ w_pmd cg = w_pmd c /\ (op = 1 \/ op = 2) /\ msg_ok rc (op, [payload], key)
+  end.
+
+Definition delivered_mixed (l : list send) : list event :=
+  map (fun s => match s with
+                | SDirect (op, slices, _) => event_of op (concat slices)
+                | SBroadcast _ op payload _ => EvMsg op payload
+                end) l.
+
+Theorem fidelity_mixed c rc :
+  r_server rc = negb (w_server c) -> r_pmd rc = w_pmd c -> limit_ok rc ->
+  forall l ws hist st bs w fuel,
+  Forall (send_ok c rc) l -> win_inv ws hist ->
+  r_dps _ st = ws -> cf_init _ st = false ->
+  send_mixed c ws l = Some (bs, w) -> (length bs < fuel)%nat ->
+  exists st', read_stream fuel rc st bs = (delivered_mixed l, OMore _ st' false)
+              /\ r_dps _ st' = w /\ cf_init _ st' = false.
+Proof.
+  intros Hrole Hpmd Hc.
+  induction l as [|s r IH]; intros ws hist st bs w fuel Hall Hinv Hdps Hinit H Hf;
+    cbn [EndToEnd.send_mixed delivered_mixed map] in *.
+  - injection H as <- <-. destruct fuel as [|fuel]; [cbn in Hf; lia|]. cbn.
+    exists st. repeat split; auto.
+  - inversion Hall as [|? ? Hhd Hall']; subst.
+    destruct fuel as [|fuel]; [cbn in Hf; lia|].
+    destruct s as [[[op slices] key] | cg op payload key].
+    + destruct (send_one c (r_dps window st) op slices key) as [[[fr|] w1] res] eqn:E; try discriminate.
+      destruct res; try discriminate.
+      destruct (send_mixed c w1 r) as [[bs' w2]|] eqn:E2; [|discriminate]. injection H as <- <-.
+      destruct (direct_step c rc Hrole Hpmd Hc op slices key hist st fr w1 bs' Hhd Hinv Hinit E)
+        as (st1 & Hr & Hi1 & Hd1 & (h1 & Hinv1) & Hlen).
+      cbn [Reader.read_stream]. rewrite Hr. rewrite app_length in Hf.
+      destruct (IH w1 h1 st1 bs' w2 fuel Hall' Hinv1 Hd1 Hi1 E2 ltac:(lia)) as (st' & -> & Hd' & Hi').
+      exists st'. cbn [app]. auto.
+    + destruct Hhd as (Hsrv & Hcls & Hop & Hok).
+      destruct (send_bcast cg (r_dps window st) op payload key) as [[[fr|] w1] res] eqn:E; try discriminate.
+      destruct res; try discriminate.
+      destruct (send_mixed c w1 r) as [[bs' w2]|] eqn:E2; [|discriminate]. injection H as <- <-.
+      destruct (bcast_step cg c rc Hsrv Hcls Hrole Hpmd Hc op payload key hist st fr w1 bs' Hok Hop Hinv Hinit E)
+        as (st1 & Hr & Hi1 & Hd1 & (h1 & Hinv1) & Hlen).
+      cbn [Reader.read_stream]. rewrite Hr. rewrite app_length in Hf.
+      destruct (IH w1 h1 st1 bs' w2 fuel Hall' Hinv1 Hd1 Hi1 E2 ltac:(lia)) as (st' & -> & Hd' & Hi').
+      exists st'. cbn [app]. auto.
+Qed.
+(* C02 over mixed histories: the window is the suffix of the payloads that went out compressed, broadcasts included *)
+Definition send_wf (s : send) : Prop :=
+  let '(op, p, key) := match s with SDirect (op, slices, key) => (op, concat slices, key) | SBroadcast _ op payload key => (op, payload, key) end in
+  op < 16 /\ length key = 4%nat /\ wf_bytes key /\ wf_bytes p /\ (Z.of_nat (length p) < 2 ^ 63)%Z.
+
+Theorem dict_is_history_mixed c : forall l w0 h0 bs w,
+  Forall send_wf l -> win_inv w0 h0 -> send_mixed c w0 l = Some (bs, w) ->
+  win_inv w (h0 ++ EndToEnd.compressed_history_mixed utf8_valid deflate_raw c w0 l) /\ sw_enabled w = sw_enabled w0 /\ sw_size w = sw_size w0.
+Proof.
+  induction l as [|s r IH]; intros w0 h0 bs w Hall Hinv H; cbn [EndToEnd.send_mixed EndToEnd.compressed_history_mixed] in *.
+  - injection H as <- <-. rewrite app_nil_r. auto.
+  - inversion Hall as [|? ? Hhd Hall']; subst.
+    destruct s as [[[op slices] key] | cg op payload key]; cbn in Hhd; destruct Hhd as (Hop & Hk & Hkw & Hp & Hn).
+    + destruct (send_one c w0 op slices key) as [[[fr|] w1] res] eqn:E; try discriminate.
+      destruct res; try discriminate.
+      destruct (send_mixed c w1 r) as [[bs' w2]|] eqn:E2; [|discriminate]. injection H as <- <-.
+      destruct (send_one_shape c w0 op slices key fr w1 Hop Hk Hkw Hp Hn E) as (rsv1 & payload & _ & Hcf & _ & H0 & H1).
+      rewrite Hcf. destruct rsv1.
+      * destruct (H1 eq_refl) as (_ & _ & _ & ->).
+        destruct (fold_wwrite_inv slices w0 h0 Hinv) as (I1 & I2 & I3).
+        destruct (IH _ _ _ _ Hall' I1 E2) as (J1 & J2 & J3).
+        rewrite <- app_assoc in J1. rewrite J2, J3, I2, I3. auto.
+      * destruct (H0 eq_refl) as (_ & ->). cbn [app]. exact (IH _ _ _ _ Hall' Hinv E2).
+    + destruct (send_bcast cg w0 op payload key) as [[[fr|] w1] res] eqn:E; try discriminate.
+      destruct res; try discriminate.
+      destruct (send_mixed c w1 r) as [[bs' w2]|] eqn:E2; [|discriminate]. injection H as <- <-.
+      unfold EndToEnd.send_bcast in E. destruct (broadcast_frame _ _ _ _ _ _) as [b| | |]; try discriminate.
+      unfold broadcast_write in E. injection E as <- <-.
+      destruct (is_compressed_frame b).
+      * destruct (wwrite_total_inv w0 h0 payload Hinv) as (I1 & I2 & I3).
+        destruct (IH _ _ _ _ Hall' I1 E2) as (J1 & J2 & J3).
+        rewrite <- app_assoc in J1. rewrite J2, J3, I2, I3. auto.
+      * cbn [app]. exact (IH _ _ _ _ Hall' Hinv E2).
 Qed.
 End E2E.
